@@ -81,7 +81,9 @@ Vars == { R("n", TInt), R("x", TFloat), R("b", TBool), R("s", TStr),
           R("xa", TAlias("Ints", TList(TInt))), R("rows", TAlias("Rows", TList(TList(TInt)))), R("da", TAlias("DS", TDict(TInt))),
           R("xo", TOpt(TList(TInt))), R("co", TOpt(TC)), R("lo", TOpt(TList(TC))),
           R("xn", TOptN(TList(TInt))), R("cn", TOptN(TC)), R("ln", TOptN(TList(TC))),
-          R("gi", TG(TInt)), R("gs", TG(TStr)), R("ig", TIG), R("cd", TCd), R("wz", TWs) }
+          R("gi", TG(TInt)), R("gs", TG(TStr)), R("ig", TIG), R("cd", TCd), R("wz", TWs),
+          \* parameters that carry the names of library functions: a declaration in scope is found before the library
+          R("id", TInt), R("max", TFloat), R("hash", TStr), R("iter", TList(TInt)), R("min", TC) }
 \* members of G: fields and methods whose declared types hold the type variable at depth 0, 1 and 2, under an optional
 GFields == { <<"v", TVar>>, <<"vs", TList(TVar)>>, <<"rows", TList(TList(TVar))>>, <<"idx", TDict(TList(TVar))>>,
              <<"opt", TOpt(TVar)>>, <<"spare", TOpt(TList(TVar))>>, <<"pair", TTuple(TVar, TList(TVar))>> }
